@@ -13,6 +13,11 @@ Oracles (none calls the code it judges):
            and viewed arrays, quantities) x constructor class x keyword sets that request no change (vf/gen/c16_ctorforms.py): the
            constructor result is a live view of its input; the view converters and the copying calls in their no-change spellings
            over the same doors, with NumPy's answer on the stripped data as reference for inherited calls
+  sameprint the coercion clause over element units that PRINT THE SAME and differ in size (the same symbol in several registries via add /
+           define_unit, a default symbol changed with UnitRegistry.modify, stale snapshots of one entry, an edited registry copy; a same-size
+           control and the differently spelled control) x unit templates x sequence orders x unit of the other operand / target x element
+           builders x every door that coerces a sequence (vf/gen/c16_sameprint.py); expected numbers from vf.ref.regmodel mirrors of every
+           registry edit: v_i * scale_i(own definition, at the time the Unit object was built) / scale(result unit)
 The passive observer vf/monitors/c16_passive.py is installed around all of it (and, thorough tier, around the repository's
 own test-suite).
 """
@@ -21,6 +26,7 @@ import numpy as np
 from vf import core
 from vf.gen import c16_ops as G
 from vf.gen import c16_ctorforms as CF
+from vf.gen import c16_sameprint as SP
 from vf.monitors import taps, c16_passive as P
 from .common import chunks
 
@@ -32,7 +38,10 @@ RULE = ("one evaluation = one oracle decision on one returned object or one memo
         "accessors and every converting call by shares_memory + write isolation; constructor view / unit-multiplication copy over "
         "memory layouts and dtypes; the same view/copy contract for every input door x constructor class x no-change keyword set (none, "
         "each keyword value alone, all pairs; thorough: the full product) and for the no-change spellings of view converters and copying "
-        "calls; mixed-unit list coercion against vf/ref scales. distinct cell = (sub-monitor, operation or "
+        "calls; mixed-unit list coercion against vf/ref scales; the same clause for sequences whose elements' units print alike and differ in size "
+        "(several registries, modified default symbols, stale snapshots, edited registry copies) through every coercing door (constructor spellings, "
+        "nested sequences, sequence operand of a binary ufunc in either position / operator / in-place operator, item assignment forms, np.copyto): "
+        "class, printed unit, numbers, and the size of the Unit object attached to the result. distinct cell = (sub-monitor, operation or "
         "index form, operand kind, result shape class / dtype kind / layout)")
 ASSUMPTIONS = (
     "NumPy's own behaviour on the stripped operand (indexing result shape/values, whether a reshape/transpose/slice is a view) is the trusted reference",
@@ -53,6 +62,11 @@ ASSUMPTIONS = (
     "call forms not described by the statement are made and noted, not judged: dtype= naming another dtype (NumPy has to convert; unyt ignores it for unyt input), units= naming other units than a unyt input carries (relabelling); calls that are refused for a reason outside C16 are not made (a user-defined unit spelled as a string without its registry, bypass_validation=True without a Unit object)",
     "0-d results of the no-change view converters (view(), .d/.ndview/ndarray_view(), reshape(()), transpose()) are judged for memory like any other shape; 0-d *indexing* results stay notes (see above)",
     "for inherited NumPy calls in the no-change view matrix (reshape/transpose/astype(copy=False)/asanyarray/...) the same call on the stripped data in the same layout says whether a view is due; a copying call is judged unless its NumPy counterpart on the stripped data itself hands back shared memory (then noted; none seen)",
+    "sameprint: what an element denotes is its numbers x the scale of the Unit object it carries, a snapshot of its registry's entry at the time the object was built (DESIGN 6 'stale snapshots'; the same reading C07 takes), never the current or another registry's meaning of the printed symbol; that scale is taken from a vf.ref.regmodel mirror of the edits the harness itself made (add / define_unit / modify / remove+add / deepcopy+modify), and a pool whose real Unit objects do not have the sizes the mirror says (base_value attribute read as an input self-check) is counted as setup_mismatch and not used",
+    "sameprint: the result of a coercing door must print the first element's unit (constructor, copyto, sequence as first ufunc operand) or the other operand's / target's unit (sequence as second operand, in-place operator, item assignment) AND the Unit object attached to it must have that unit's size (attribute base_value, no conversion routine is called) - a result that prints right but is bound to another definition of the symbol is keyed result-unit-of-other-size",
+    "sameprint: a refusal is judged only where the same door returned for the differently spelled control with the same element builder (DESIGN 4.23); a failure the differently spelled control shows too is keyed ':any-units' (it does not depend on how the units are defined), otherwise by the class of the pool",
+    "sameprint: registry= is passed only as the first element's own registry (another registry that defines the symbol differently would be an explicit request to re-read the symbol there: not in the statement, not made); float32 elements whose numbers leave 1e-30..1e30 in any unit involved are discarded and counted (IEEE range, C17's subject)",
+    "sameprint: for ufunc doors the reference applies the NumPy function to the operands' reference SI numbers (add, subtract, maximum, minimum, fmax, hypot are homogeneous of degree 1; comparisons are scale free); the other operand's numbers are chosen elementwise within a factor 0.6..2.9 of the sequence's so that no element is absorbed",
     "vf/ref/defs.py scales/offsets for m,cm,km,mm,inch,ft,mile,s,ms,min,hr,day,g,kg,lb,J,erg,kJ,K,degC,degF,R are the trusted base of the coercion oracle",
 )
 MIN_EVALS = 3000
@@ -97,6 +111,19 @@ def batches(tier, seed):
         for i, c in enumerate(chunks([(), (1,), (3,), (2, 3), (1, 1), (2, 1, 3)], 3)):
             for j, dch in enumerate(chunks(doors, 4)):
                 b.append((f"callforms-full/{i}.{j}", ("callforms", {"shapes": c, "doors": dch, "dtypes": ["f8", "i8"], "specs": "thorough", "nrandom": 0, "seed": seed})))
+    # coercion of sequences whose elements' units print alike and differ in size: family x (template, classes) plans
+    tnames = [t[0] for t in SP.TEMPLATES]
+    if thorough:
+        for fam in SP.FAMS:
+            for t in tnames:
+                b.append((f"sameprint/{fam}.{t}", ("sameprint", {"fams": [fam], "plan": [[t, list(SP.KINDS)]], "seed": seed})))      # every class x every template; builders rotate as in quick (~3x quick)
+    else:
+        for fi, fam in enumerate(SP.FAMS):
+            plan = {t: [] for t in tnames}
+            for i, k in enumerate(SP.KINDS):        # every class meets two templates, every template two classes; the pairing moves with the seed
+                for off in (0, 3):
+                    plan[tnames[(i + seed + fi + off) % len(tnames)]].append(k)
+            b.append((f"sameprint/{fam}", ("sameprint", {"fams": [fam], "plan": [[t, ks] for t, ks in plan.items()], "seed": seed})))
     nr = 4 if not thorough else 48
     for i in range(nr):
         b.append((f"random/{i}", ("random", {"seed": seed, "n": 150 if not thorough else 500})))
@@ -856,6 +883,210 @@ def drive_coerce(cx, payload):
     rec.sample({"coerce": {"families": {k: v for k, v in COERCE_FAMILIES.items()}, "builders": [b[0] for b in builders], "cases": len(cases)}})
 
 
+# ------------------------------------------------------------------------------------------------ coercion: element units that print alike
+SP_REFUSAL_OK = ()          # no refusal is acceptable for commensurable elements when the differently spelled control returns
+
+
+class SPEnv:
+    """what a door of vf/gen/c16_sameprint.py may ask for; every call builds fresh objects"""
+
+    def __init__(self, unyt, seqh, ht, builder, vals, z_num, z2_num):
+        self.unyt, self.np, self.UA, self.UQ = unyt, np, unyt.unyt_array, unyt.unyt_quantity
+        self.seqh, self.ht, self.builder, self.vals = seqh, ht, builder, vals
+        self.n = len(seqh)
+        self.first_reg = seqh[0].unit.registry
+        self._z, self._z2 = z_num, z2_num
+
+    def seq(self):
+        return [SP.element(self.unyt, self.builder, h, v) for h, v in zip(self.seqh, self.vals)]
+
+    def tup(self):
+        return tuple(self.seq())
+
+    def nested(self):
+        return [self.seq(), self.seq()[::-1]]
+
+    def z(self):
+        return self.UA(self._z.copy(), self.ht.unit)
+
+    def z2(self):
+        return self.UA(self._z2.copy(), self.ht.unit)
+
+    def t(self):
+        return self.UA(np.zeros(self._z.shape), self.ht.unit)
+
+    def t2(self):
+        return self.UA(np.zeros(self._z2.shape), self.ht.unit)
+
+
+def sp_expected(rule, seq_si, nested_si, z_si, z2_si):
+    """reference numbers in SI (NumPy on plain floats is trusted); None when not applicable"""
+    nested = "nested" in rule
+    S, Z = (nested_si, z2_si) if nested else (seq_si, z_si)
+    if rule[0] in ("seq", "nested"):
+        return S[::-1] if "reversed" in rule else S
+    f = getattr(np, rule[0])
+    return f(Z, S) if rule[1] == "zs" else f(S, Z)
+
+
+def drive_sameprint(cx, payload, bid):
+    """the sequence-coercion clause over element units that print the same and differ in size (several registries, modified
+    default symbols, stale snapshots, edited registry copies), with a same-size control and the differently spelled control,
+    through every door that coerces a sequence.  Reference: vf.ref.regmodel mirrors of every registry edit."""
+    unyt, rec = cx.unyt, cx.rec
+    UA = unyt.unyt_array
+    r = core.rng(payload["seed"], bid)
+    thorough = payload.get("thorough", False)
+    control_returns = set()
+    control_fails = set()
+    nb = 0
+    for fam in payload["fams"]:
+        for template, kinds in payload["plan"]:
+            for kind in ["spelled-differently"] + list(kinds):
+                try:
+                    pool = SP.plain_pool(unyt, fam, template) if kind == "spelled-differently" else SP.build(unyt, fam, kind, template, r)
+                except Exception as e:
+                    rec.count("sameprint.setup_failed")
+                    rec.note(f"sameprint-setup-failed:{kind}:{template}:{type(e).__name__}")
+                    continue
+                if pool is None:
+                    rec.count("sameprint.not_applicable")
+                    continue
+                # harness self-check (inputs, not verdicts): the Unit objects built have the sizes the model says, the pool prints alike
+                bad = [h.label for h in pool.same + pool.plain
+                       if not (abs(float(h.unit.base_value) / h.scale - 1) <= 1e-9 + h.tol)]
+                if kind not in ("spelled-differently",) and len({str(h.unit) for h in pool.same}) != 1:
+                    bad.append("prints-differ")
+                if bad:
+                    rec.count("sameprint.setup_mismatch")
+                    rec.note(f"sameprint-setup-mismatch:{kind}:{template}:{fam}:{','.join(sorted(set(bad)))[:80]}")
+                    continue
+                rec.count("sameprint.pools")
+                rec.reach(f"sameprint-pool:{kind}:{template}")
+                for sname, seqh in SP.sequences(pool):
+                    for tname, ht in SP.targets(pool, seqh):
+                        nb += 1
+                        if thorough or (kind == "spelled-differently" and sname == "ab"):
+                            builders = [b for b in SP.BUILDERS]         # the control meets every builder at least once per template
+                        else:
+                            builders = [SP.BUILDERS[(nb + k * 3) % len(SP.BUILDERS)] for k in range(2)]
+                        for bname, es, dclass in builders:
+                            vals = [round(r.uniform(1, 90), 3) for _ in seqh]
+                            nums = [SP.element_numbers(bname, v) for v in vals]
+                            seq_si = np.array([nm * h.scale for nm, h in zip(nums, seqh)], dtype="f8")
+                            raw = np.array(nums, dtype="f8")
+                            fac = np.array([0.6 + 0.37 * ((i * 5 + nb) % 7) for i in range(seq_si.size)]).reshape(seq_si.shape)
+                            z_si = seq_si * fac
+                            nested_si = np.stack([seq_si, seq_si[::-1]]) if es == () else None
+                            z2_si = nested_si * np.stack([fac, fac[::-1] * 1.21]) if es == () else None
+                            if dclass == "f4":
+                                # numbers that leave the normal range of float32 in some unit involved: IEEE overflow, not coercion (C17's subject)
+                                cand = np.abs(np.concatenate([(seq_si / h.scale).ravel() for h in list(seqh) + [ht]] + [(z_si / h.scale).ravel() for h in list(seqh) + [ht]]))
+                                if cand.max() > 1e30 or cand.min() < 1e-30:
+                                    rec.count("sameprint.discarded_outside_float32_range")
+                                    continue
+                            env = SPEnv(unyt, seqh, ht, bname, vals, z_si / ht.scale, None if z2_si is None else z2_si / ht.scale)
+                            tol_h = sum(h.tol for h in seqh) + ht.tol
+                            rel = (4e-7 if dclass == "f4" else 1e-12) + 4 * tol_h
+                            for dname, dfam, urule, vrule, fn in SP.DOORS:
+                                if "nested" in dfam and es != ():
+                                    continue
+                                if dfam.startswith("ctor") and tname != "first-unit":
+                                    continue                    # no second operand: run once per sequence
+                                after_refusal = (nb + len(dname)) % 4 == 0
+                                if after_refusal:
+                                    try:
+                                        UA([env.seq()[0], unyt.unyt_quantity(1.0, "A*K**2")])
+                                    except Exception:
+                                        rec.count("sameprint.after_refusal")
+                                key0 = f"C16:coerce-door/{dname}"
+
+                                def viol(fk, desc):
+                                    # a failure the differently spelled control shows as well does not depend on how the elements' units are defined
+                                    if kind == "spelled-differently":
+                                        control_fails.add((dname, fk))
+                                    sfx = "any-units" if (dname, fk) in control_fails else kind
+                                    rec.violation(f"{key0}:{fk}:{sfx}", desc, case)
+                                case = {"door": dname, "class": kind, "template": template, "sequence": sname, "target": tname, "builder": bname,
+                                        "units": [f"{h.expr} [{h.label}: {h.scale:g} SI]" for h in seqh], "values": vals,
+                                        "target_unit": f"{ht.expr} [{ht.label}: {ht.scale:g} SI]"}
+                                try:
+                                    res = fn(env)
+                                except Exception as e:
+                                    if kind == "spelled-differently":
+                                        rec.note(f"sameprint-control-refuses:{dname}:{bname}:{type(e).__name__}")
+                                        rec.count("sameprint.control_refused")
+                                    elif (dname, bname) in control_returns:
+                                        viol(f"raises-{type(e).__name__}", f"{dname} with elements in {case['units']} ({bname}, target {case['target_unit']}) raised "
+                                                      f"{type(e).__name__}: {e}"[:500] + "; the same door returns for differently spelled units")
+                                    else:
+                                        rec.note(f"sameprint-vacuous-refusal:{dname}:{bname}")
+                                    continue
+                                if kind == "spelled-differently":
+                                    control_returns.add((dname, bname))
+                                exp_si = sp_expected(vrule, seq_si, nested_si, z_si, z2_si)
+                                mag = np.abs(seq_si if "nested" not in vrule else nested_si)
+                                if len(vrule) > 1 and vrule[0] not in ("seq", "nested"):
+                                    mag = mag + np.abs(z_si if "nested" not in vrule else z2_si)
+                                elif "reversed" in vrule:
+                                    mag = mag[::-1]
+                                rec.count("sameprint.judged")
+                                rec.count("sameprint.class." + kind)
+                                rec.count("sameprint.doorfam." + dfam)
+                                rec.count("sameprint.target." + tname)
+                                rec.reach(f"sameprint:{dname}")
+                                prints_alike = len({str(h.unit) for h in seqh}) == 1
+                                needs = bool(np.any(np.abs(seq_si / seqh[0].scale - raw) > 1e-6 * np.abs(raw)))
+                                if prints_alike and needs:
+                                    rec.count("sameprint.alike_and_conversion_needed")
+                                if prints_alike and not needs:
+                                    rec.count("sameprint.alike_and_same_size")
+                                cell = ("coerce-sameprint", dname, kind, template, sname, tname, bname)
+                                if urule == "bool":
+                                    if isinstance(res, UA) or not isinstance(res, np.ndarray) or res.dtype.kind != "b":
+                                        viol("comparison-result-not-bool-array", f"{dname} returned {type(res).__name__} {getattr(res, 'dtype', None)}")
+                                    elif res.shape != exp_si.shape or not np.array_equal(res, exp_si):
+                                        viol("comparison-wrong", f"{dname}: elements {list(zip(vals, case['units']))} against {case['target_unit']} numbers "
+                                                      f"{(z_si / ht.scale).tolist()} gave {res.tolist()}, by size it is {exp_si.tolist()}")
+                                    else:
+                                        rec.ok(cell)
+                                    continue
+                                hexp = seqh[0] if urule == "first" else ht
+                                if not isinstance(res, UA):
+                                    viol("lost-units", f"{dname} on elements in {case['units']} returned bare {type(res).__name__}")
+                                    continue
+                                f = P.class_failure(res)
+                                if f:
+                                    viol(f, f"{dname} returned {type(res).__name__} of shape {res.shape}")
+                                    continue
+                                if str(res.units) != str(hexp.unit):
+                                    viol(f"unit-not-{'first-element' if urule == 'first' else 'target'}",
+                                         f"{dname} on elements in {case['units']} (target {case['target_unit']}) is labelled {res.units}, expected {hexp.unit}")
+                                    continue
+                                got = np.asarray(res.view(np.ndarray), dtype="f8")
+                                exp = exp_si / hexp.scale
+                                if got.shape != exp.shape:
+                                    viol("shape", f"{dname}: result shape {got.shape}, expected {exp.shape}")
+                                    continue
+                                if not np.all(np.abs(got - exp) <= rel * (mag / hexp.scale) + 1e-300):
+                                    raw_ref = None
+                                    if vrule[0] in ("seq", "nested"):
+                                        raw_ref = raw if vrule[0] == "seq" else np.stack([raw, raw[::-1]])
+                                        raw_ref = raw_ref[::-1] if "reversed" in vrule else raw_ref
+                                    unconverted = raw_ref is not None and raw_ref.shape == got.shape and np.allclose(got, raw_ref, rtol=1e-6)
+                                    viol('values-not-converted' if unconverted else 'values-wrong',
+                                         f"{dname}: elements {list(zip(vals, case['units']))}, other operand/target {case['target_unit']}: got {got.tolist()} {res.units}, "
+                                                  f"by the sizes of the elements' own units it is {exp.tolist()}")
+                                    continue
+                                bv = float(res.units.base_value)
+                                if not abs(bv / hexp.scale - 1) <= 1e-9 + hexp.tol:
+                                    viol("result-unit-of-other-size", f"{dname}: numbers are right for {hexp.expr} [{hexp.label}] of size {hexp.scale:g} SI but the Unit object "
+                                                  f"attached to the result has size {bv:g} SI (same print, other definition)")
+                                    continue
+                                rec.ok(cell)
+    rec.sample({"sameprint": {"fams": payload["fams"], "plan": payload["plan"], "doors": len(SP.DOORS)}})
+
+
 # ------------------------------------------------------------------------------------------------ random shapes, indices and operation chains
 def drive_random(cx, payload, bid):
     unyt, rec = cx.unyt, cx.rec
@@ -1026,17 +1257,23 @@ def worker(batch, rec):
             drive_npcat(cx, payload, bid)
         elif kind == "callforms":
             drive_callforms(cx, payload, bid)
+        elif kind == "sameprint":
+            drive_sameprint(cx, payload, bid)
     finally:
         cx.close()
 
 
+SAMEPRINT_COUNTERS = (("sameprint.judged", "sameprint.alike_and_conversion_needed", "sameprint.alike_and_same_size", "sameprint.after_refusal")
+                      + tuple("sameprint.class." + k for k in SP.KINDS + ("spelled-differently",))
+                      + tuple("sameprint.doorfam." + f for f in SP.DOOR_FAMILIES)
+                      + tuple("sameprint.target." + t for t in ("first-unit", "same-print-sibling", "spelled-differently")))
 DECIDING = ("passive.getitem.judged_objects", "passive.ufunc.judged_objects", "passive.function.judged_objects", "passive.conv.judged_objects",
             "passive.unitop.judged_objects", "passive.active.judged_objects", "passive.iter.judged_objects", "iteration.protocols", "index.driven",
             "views.judged", "accessor_views.judged", "copies.judged", "conversions.judged", "ctor_views.judged", "unit_mul_copies.judged",
             "quantity_ctor.judged", "coerce.judged", "random.chain_steps", "passive.getitem.memory_probes", "passive.conv.memory_probes",
             "passive.unitop.memory_probes", "passive.function.view_probes",
             "callform.ctor_judged", "callform.ctor_unyt_input_dtype_kw", "callform.ctor_unyt_input_kw_pairs", "callform.ctor_subclass", "callform.converter_subclass",
-            "callform.view_judged", "callform.copy_judged") + CALLFORM_KW_COUNTERS
+            "callform.view_judged", "callform.copy_judged") + CALLFORM_KW_COUNTERS + SAMEPRINT_COUNTERS
 
 
 def extra(tier, seed, results):
@@ -1060,5 +1297,7 @@ def extra(tier, seed, results):
     forms = sorted(n for n in reached if n.startswith("index:"))
     sub = {k: counters.get(k, 0) for k in need}
     return {"sub_monitor_counters": sub, "sub_monitors_silent": zero, "unreached": unreached[:400], "unreached_count": len(unreached), "catalogue_size": len(names),
+            "sameprint": {k: v for k, v in counters.items() if k.startswith("sameprint.")},
+            "sameprint_doors_unreached": sorted(d[0] for d in SP.DOORS if "sameprint:" + d[0] not in reached),
             "index_forms_reached": forms, "tap_calls": {k[4:]: v for k, v in counters.items() if k.startswith("tap.")},
             "passive_events": {k: v for k, v in counters.items() if k.startswith("passive.events") or k.startswith("suite.")}}
